@@ -652,6 +652,9 @@ class Series:
             raise ModelGap("fillna method %r" % method)
         return Series(vals, index=self.index, name=self.name)
 
+    def replace(self, to_replace=None, value=None):
+        return Series([value if _b.bool(v == to_replace) else v for v in self._v], index=self.index, name=self.name)
+
     def ffill(self):
         return self.fillna(method="ffill")
 
